@@ -273,3 +273,14 @@ func TestVfReplay_C19(t *testing.T) {
 		t.Fatalf("%s", vfFail("C19", "replay", sig, &c, "%s", msg))
 	}
 }
+
+func FuzzVf_C19(f *testing.F) {
+	f.Fuzz(rapid.MakeFuzz(func(t *rapid.T) {
+		c := vfGenBloomCase(t)
+		if st, sig, msg := vfRunBloomCase(c); sig != "" {
+			cc := *c
+			cc.Ops = cc.Ops[:st.executed]
+			t.Fatalf("%s", vfFail("C19", "bloom", sig, &cc, "%s", msg))
+		}
+	}))
+}
